@@ -5,6 +5,7 @@ import Driver.Ref
 import Driver.C19
 import Driver.C06
 import Driver.C12
+import Driver.C13
 
 open Driver
 
@@ -38,6 +39,9 @@ def main (args : List String) : IO UInt32 := do
     return 0
   | ["c12"] =>
     forLines stdin fun l => stdout.putStrLn (c12Line (fields l))
+    return 0
+  | ["c13"] =>
+    forLines stdin fun l => stdout.putStrLn (c13Line (fields l))
     return 0
   | _ =>
     IO.eprintln "usage: cbdriver <cmd>"
